@@ -190,6 +190,19 @@ def runCrcSplit (cuts hex : String) : String :=
     let h := parts.foldl Crc.Hash.write Crc.Hash.new
     s!"{h.sum16.toNat} {hexOf (h.sum [])} {(h.reset).sum16.toNat} {(Crc.checksum data).toNat}"
 
+/-- `crcmany <n> <hex>`: `n` hashes alive at the same time, hash `i` fed the data rotated by `i` in two
+    writes (other hashes are created and fed between the two); the sums, 4 hex digits each -/
+def runCrcMany (n hex : String) : String :=
+  match parseNat? n, unhex hex with
+  | some n, some data =>
+    let len := data.length
+    String.join ((List.range n).map fun i =>
+      let k := if len == 0 then 0 else i % len
+      let d := data.drop k ++ data.take k
+      let h := (Crc.Hash.new.write (d.take (len / 2))).write (d.drop (len / 2))
+      hexOf [UInt8.ofNat ((h.sum16.toNat / 256) % 256), UInt8.ofNat (h.sum16.toNat % 256)])
+  | _, _ => "bad-arg"
+
 /-- coordinates: `ll lat|lng <semicircles>` → stored value, invalid flag, degrees numerator (×2^-31) -/
 def runLL (which s : String) : String :=
   match parseInt? s with
@@ -349,6 +362,7 @@ def runLine1 (line : String) : String :=
   | ["crcrow", st] => runCrcRow st
   | ["crcsplit", cuts, hex] => runCrcSplit cuts hex
   | ["crcsplit", cuts] => runCrcSplit cuts ""
+  | ["crcmany", n, hex] => runCrcMany n hex
   | ["dec", entry, opts, rspec, accu, hex] => runDec entry opts rspec accu hex
   | ["dec", entry, opts, rspec, accu] => runDec entry opts rspec accu ""
   | _ => "bad-op"
